@@ -97,6 +97,9 @@ func (s *c19Seed) feed(rec *inproc.Record) []string {
 			continue
 		}
 		key := fmt.Sprintf("%s|%d", out.keyset, out.counter)
+		if os.Getenv("VERIF_DEBUG_LOG") != "" {
+			fmt.Fprintf(os.Stderr, "  REC #%d %s%s status=%d output %d: keyset %s counter %d signed=%v\n", rec.Seq, rec.Host, rec.Path, rec.Status, i, out.keyset, out.counter, i < len(sigs))
+		}
 		s.mu.Lock()
 		already := s.signedAt[key] > 0
 		s.mu.Unlock()
@@ -301,6 +304,24 @@ func c19Histories(r *core.Run) {
 		cfg := wworld.FullCfg()
 		cfg.WalletRestart = true
 		s.AfterOp = c19Watch(r, w, wallets, s, sig)
+		if len(w.Mints) == 2 {
+			// directed: SIG_ALL P2PK tokens received with swap-to-trusted (the wallet first swaps them
+			// at the token's mint with outputs of its own), twice from a mint the receiver does not
+			// know and twice from one it knows
+			a, b, m0 := w.Wallets[0], w.Wallets[1], w.Mints[0].URL
+			if s.OpFund(a, 600, m0) == nil {
+				rcv := func(amount uint64, trusted bool, sigAll bool) {
+					if ht, err := s.OpSendP2PKFlag(a, b, amount, m0, false, sigAll); err == nil && ht != nil {
+						s.OpReceive(b, ht, trusted)
+					}
+				}
+				rcv(40, true, true)
+				rcv(41, true, true)
+				rcv(20, false, false) // b trusts m0 from here on
+				rcv(42, true, true)
+				rcv(43, true, true)
+			}
+		}
 		for i := 0; i < nops && r.Violations() < 10; i++ {
 			s.RandomOp(cfg)
 		}
